@@ -1,28 +1,38 @@
 import KyupyVerif.Proofs.VerilogTextLex
 /-! Parser side of the round trip for the Verilog text model: a text that lexes to the token stream of a module list
-(`modulesT`) parses to that module list (`pModules_ok`). -/
+(`modulesT`) parses to that module list (`pModules_ok`) — stated up to SPELLING: the text may lex to any token list whose
+tokens are spellings (`sameTok`, relation `LexesC`) of the canonical ones. -/
 namespace KV.VerilogText
 
 /-! ## single tokens -/
 
-theorem lex_peek_true {s : List Char} {c : Char} {ts : List CT} (h : Lexes s (gs c :: ts)) : peekSym c s = true := by
-  obtain ⟨r, hn, _⟩ := Lexes.cons_inv h
+theorem lex_peek_true {s : List Char} {c : Char} {ts : List CT} (h : LexesC s (gs c :: ts)) : peekSym c s = true := by
+  obtain ⟨a, r, hn, hs, _⟩ := LexesC.cons_inv h
+  rw [sameTok_sym hs] at hn
   simp only [peekSym, hn, beq_self_eq_true]
 
-theorem lex_peek_false {s : List Char} {c : Char} {t : Tok} {ts : List CT} (h : Lexes s ((.gen, t) :: ts))
+theorem lex_peek_false {s : List Char} {c : Char} {t : Tok} {ts : List CT} (h : LexesC s ((.gen, t) :: ts))
     (ht : t ≠ .sym c) : peekSym c s = false := by
-  obtain ⟨r, hn, _⟩ := Lexes.cons_inv h
+  obtain ⟨a, r, hn, hs, _⟩ := LexesC.cons_inv h
   simp only [peekSym, hn]
-  cases t with
+  cases a with
   | sym d =>
     simp only [beq_eq_false_iff_ne, ne_eq]
-    intro hd; exact ht (by rw [hd])
+    intro hd; subst hd; exact ht (sameTok_of_sym hs)
   | _ => rfl
 
-theorem lex_expect {s : List Char} {c : Char} {ts : List CT} (h : Lexes s (gs c :: ts)) :
-    ∃ r, expectSym c s = some r ∧ Lexes r ts := by
-  obtain ⟨r, hn, hr⟩ := Lexes.cons_inv h
+theorem lex_expect {s : List Char} {c : Char} {ts : List CT} (h : LexesC s (gs c :: ts)) :
+    ∃ r, expectSym c s = some r ∧ LexesC r ts := by
+  obtain ⟨a, r, hn, hs, hr⟩ := LexesC.cons_inv h
+  rw [sameTok_sym hs] at hn
   exact ⟨r, by simp only [expectSym, hn, beq_self_eq_true, if_true], hr⟩
+
+/-- a token with one spelling only (keyword word, `module`) is pulled as itself -/
+theorem lex_fixed {s : List Char} {c : Ctx} {t : Tok} {ts : List CT} (h : LexesC s ((c, t) :: ts))
+    (hfix : ∀ a, sameTok a t = true → a = t) : ∃ r, next c s = some (t, r) ∧ LexesC r ts := by
+  obtain ⟨a, r, hn, hs, hr⟩ := LexesC.cons_inv h
+  rw [hfix a hs] at hn
+  exact ⟨r, hn, hr⟩
 
 theorem tokName_nameTok (n : String) : tokName (nameTok n) = some n := by
   unfold nameTok
@@ -32,15 +42,17 @@ theorem nameTok_ne_sym (n : String) (c : Char) : nameTok n ≠ .sym c := by
   unfold nameTok
   split <;> intro h <;> cases h
 
-theorem lex_name {s : List Char} {n : String} {ts : List CT} (h : Lexes s (gt (nameTok n) :: ts)) :
-    ∃ r, pName s = some (n, r) ∧ Lexes r ts := by
-  obtain ⟨r, hn, hr⟩ := Lexes.cons_inv h
-  exact ⟨r, by simp only [pName, hn, tokName_nameTok], hr⟩
+theorem lex_name {s : List Char} {n : String} {ts : List CT} (h : LexesC s (gt (nameTok n) :: ts)) :
+    ∃ r, pName s = some (n, r) ∧ LexesC r ts := by
+  obtain ⟨a, r, hn, hs, hr⟩ := LexesC.cons_inv h
+  exact ⟨r, by simp only [pName, hn, sameTok_tokName hs, tokName_nameTok], hr⟩
 
-theorem lex_num {s : List Char} {k : Nat} {ts : List CT} (h : Lexes s (natT k :: ts)) :
-    ∃ r, pNum s = some (k, r) ∧ Lexes r ts := by
-  obtain ⟨r, hn, hr⟩ := Lexes.cons_inv h
-  exact ⟨r, by simp only [pNum, hn, numVal, Nat.ofDigitChars_ten_toDigits], hr⟩
+theorem lex_num {s : List Char} {k : Nat} {ts : List CT} (h : LexesC s (natT k :: ts)) :
+    ∃ r, pNum s = some (k, r) ∧ LexesC r ts := by
+  obtain ⟨a, r, hn, hs, hr⟩ := LexesC.cons_inv h
+  obtain ⟨ds', rfl, hv⟩ := sameTok_num hs
+  have hk : numVal ds' = k := by rw [hv]; simp only [numVal, Nat.ofDigitChars_ten_toDigits]
+  exact ⟨r, by simp only [pNum, hn, hk], hr⟩
 
 /-- the token behind the construct is not `[` (so that `range?` stops) -/
 def HeadOK (ts : List CT) : Prop := ∃ t ts', ts = (.gen, t) :: ts' ∧ t ≠ .sym '['
@@ -53,8 +65,8 @@ theorem headOK_name (n : String) (ts : List CT) : HeadOK (gt (nameTok n) :: ts) 
 
 /-! ## ranges -/
 
-theorem pRange_ok (rg : Range) (s : List Char) (ts : List CT) (h : Lexes s (rangeT rg ++ ts)) :
-    ∃ r, pRangeOpt s = some (some rg, r) ∧ Lexes r ts := by
+theorem pRange_ok (rg : Range) (s : List Char) (ts : List CT) (h : LexesC s (rangeT rg ++ ts)) :
+    ∃ r, pRangeOpt s = some (some rg, r) ∧ LexesC r ts := by
   obtain ⟨l, ro⟩ := rg
   cases ro with
   | none =>
@@ -76,8 +88,8 @@ theorem pRange_ok (rg : Range) (s : List Char) (ts : List CT) (h : Lexes s (rang
     obtain ⟨r5, he5, h5⟩ := lex_expect h4
     exact ⟨r5, by simp only [pRangeOpt, hp, if_true, he1, pRange, hn, hp2, he3, hn4, he5], h5⟩
 
-theorem pRangeOpt_ok (rg : Option Range) (s : List Char) (ts : List CT) (h : Lexes s (rangeOptT rg ++ ts))
-    (hts : HeadOK ts) : ∃ r, pRangeOpt s = some (rg, r) ∧ Lexes r ts := by
+theorem pRangeOpt_ok (rg : Option Range) (s : List Char) (ts : List CT) (h : LexesC s (rangeOptT rg ++ ts))
+    (hts : HeadOK ts) : ∃ r, pRangeOpt s = some (rg, r) ∧ LexesC r ts := by
   cases rg with
   | some rg => exact pRange_ok rg s ts h
   | none =>
@@ -91,7 +103,7 @@ theorem namesTailT_length_pos (e : Char) (ns : List String) : 0 < (namesTailT e 
   cases ns <;> simp [namesTailT]
 
 theorem pNamesTail_ok (e : Char) (he : e ≠ ',') (ns : List String) : ∀ (f : Nat) (s : List Char) (ts : List CT),
-    Lexes s (namesTailT e ns ++ ts) → (namesTailT e ns).length ≤ f → ∃ r, pNamesTail e f s = some (ns, r) ∧ Lexes r ts := by
+    LexesC s (namesTailT e ns ++ ts) → (namesTailT e ns).length ≤ f → ∃ r, pNamesTail e f s = some (ns, r) ∧ LexesC r ts := by
   induction ns with
   | nil =>
     intro f s ts h hf
@@ -115,8 +127,8 @@ theorem pNamesTail_ok (e : Char) (he : e ≠ ',') (ns : List String) : ∀ (f : 
       exact ⟨r3, by simp only [pNamesTail, hp, if_true, hx, hn, ht], h3⟩
 
 theorem pNames_ok (e : Char) (he : e ≠ ',') (n : String) (ns : List String) (f : Nat) (s : List Char) (ts : List CT)
-    (h : Lexes s (namesT e (n :: ns) ++ ts)) (hf : (namesT e (n :: ns)).length ≤ f) :
-    ∃ r, pNames e f s = some (n :: ns, r) ∧ Lexes r ts := by
+    (h : LexesC s (namesT e (n :: ns) ++ ts)) (hf : (namesT e (n :: ns)).length ≤ f) :
+    ∃ r, pNames e f s = some (n :: ns, r) ∧ LexesC r ts := by
   simp only [namesT, List.cons_append] at h
   obtain ⟨r1, hn, h1⟩ := lex_name h
   obtain ⟨r2, ht, h2⟩ := pNamesTail_ok e he ns f r1 ts h1 (by simp only [namesT, List.length_cons] at hf; omega)
@@ -143,10 +155,10 @@ theorem headOK_selsTailT (xs : List VSel) (ts : List CT) : HeadOK (selsTailT xs 
 
 theorem pSel_both (f : Nat) :
     (∀ (x : VSel) (s : List Char) (ts : List CT), validSel x = true → (selT x).length ≤ f → HeadOK ts →
-      Lexes s (selT x ++ ts) → ∃ r, pSel f s = some (x, r) ∧ Lexes r ts) ∧
+      LexesC s (selT x ++ ts) → ∃ r, pSel f s = some (x, r) ∧ LexesC r ts) ∧
     (∀ (x : VSel) (xs : List VSel) (s : List Char) (ts : List CT), validSel x = true → validSels xs = true →
-      (selT x ++ selsTailT xs).length ≤ f → Lexes s ((selT x ++ selsTailT xs) ++ ts) →
-      ∃ r, pSelList f s = some (x :: xs, r) ∧ Lexes r ts) := by
+      (selT x ++ selsTailT xs).length ≤ f → LexesC s ((selT x ++ selsTailT xs) ++ ts) →
+      ∃ r, pSelList f s = some (x :: xs, r) ∧ LexesC r ts) := by
   induction f with
   | zero =>
     constructor
@@ -197,7 +209,7 @@ theorem pSel_both (f : Nat) :
         exact ⟨r3, by simp only [pSelList, hs, hp, if_true, hx, hl], h3⟩
 
 theorem pSel_ok (f : Nat) (x : VSel) (s : List Char) (ts : List CT) (hv : validSel x = true) (hf : (selT x).length ≤ f)
-    (hts : HeadOK ts) (h : Lexes s (selT x ++ ts)) : ∃ r, pSel f s = some (x, r) ∧ Lexes r ts :=
+    (hts : HeadOK ts) (h : LexesC s (selT x ++ ts)) : ∃ r, pSel f s = some (x, r) ∧ LexesC r ts :=
   (pSel_both f).1 x s ts hv hf hts h
 
 /-! ## pins -/
@@ -223,7 +235,7 @@ theorem pinFollow_tail (ps : List VPin) (ts : List CT) : PinFollow (pinsTailT ps
   | cons p r => exact ⟨',', (pinT p ++ pinsTailT r) ++ ts, by simp only [pinsTailT, List.cons_append], Or.inl rfl⟩
 
 theorem pPin_ok (f : Nat) (p : VPin) (s : List Char) (ts : List CT) (hv : validPin p = true) (hf : (pinT p).length ≤ f)
-    (hts : PinFollow ts) (h : Lexes s (pinT p ++ ts)) : ∃ r, pPin f s = some (p, r) ∧ Lexes r ts := by
+    (hts : PinFollow ts) (h : LexesC s (pinT p ++ ts)) : ∃ r, pPin f s = some (p, r) ∧ LexesC r ts := by
   cases p with
   | named n o =>
     cases o with
@@ -261,7 +273,7 @@ theorem pPin_ok (f : Nat) (p : VPin) (s : List Char) (ts : List CT) (hv : validP
     exact ⟨r1, by simp only [pPin, hp, Bool.false_eq_true, if_false, hs], h1⟩
 
 theorem pPinsTail_ok (ps : List VPin) : ∀ (f : Nat) (s : List Char) (ts : List CT), ps.all validPin = true →
-    (pinsTailT ps).length ≤ f → Lexes s (pinsTailT ps ++ ts) → ∃ r, pPinsTail f s = some (ps, r) ∧ Lexes r ts := by
+    (pinsTailT ps).length ≤ f → LexesC s (pinsTailT ps ++ ts) → ∃ r, pPinsTail f s = some (ps, r) ∧ LexesC r ts := by
   induction ps with
   | nil =>
     intro f s ts _ hf h
@@ -290,7 +302,7 @@ theorem pPinsTail_ok (ps : List VPin) : ∀ (f : Nat) (s : List Char) (ts : List
       exact ⟨r3, by simp only [pPinsTail, hp, if_true, hx, hpin, ht], h3⟩
 
 theorem pPins_ok (f : Nat) (ps : List VPin) (s : List Char) (ts : List CT) (hv : ps.all validPin = true)
-    (hf : (pinsT ps).length ≤ f) (h : Lexes s (pinsT ps ++ ts)) : ∃ r, pPins f s = some (ps, r) ∧ Lexes r ts := by
+    (hf : (pinsT ps).length ≤ f) (h : LexesC s (pinsT ps ++ ts)) : ∃ r, pPins f s = some (ps, r) ∧ LexesC r ts := by
   cases ps with
   | nil =>
     simp only [pinsT, List.cons_append, List.nil_append] at h
@@ -353,10 +365,20 @@ theorem stmtsT_length_pos (sts : List VStmt) : 0 < (stmtsT sts).length := by
   | nil => simp [stmtsT]
   | cons st r => have := stmtT_length_pos st; simp only [stmtsT, List.length_append]; omega
 
+/-- the spellings of a statement-leading name: escaped, or plain when it is no statement keyword -/
+theorem sameTok_nameTok_lead {a : Tok} {ty : String} (h : sameTok a (nameTok ty) = true) :
+    a = .esc ty.toList ∨ (a = .word ty.toList ∧ kwOf ty.toList = none) := by
+  unfold nameTok at h
+  split at h
+  · next hpl =>
+    have hk := kwOf_plain _ hpl
+    cases a <;> simp_all [sameTok]
+  · cases a <;> simp_all [sameTok]
+
 theorem pInst_ok (f : Nat) (ty nm : String) (pins : List VPin) (s : List Char) (ts : List CT)
     (hv : pins.all validPin = true) (hf : (pinsT pins).length ≤ f)
-    (h : Lexes s (gt (nameTok nm) :: gs '(' :: (pinsT pins ++ [gs ';']) ++ ts)) :
-    ∃ r, pInst f ty s = some (.inst ty nm pins, r) ∧ Lexes r ts := by
+    (h : LexesC s (gt (nameTok nm) :: gs '(' :: (pinsT pins ++ [gs ';']) ++ ts)) :
+    ∃ r, pInst f ty s = some (.inst ty nm pins, r) ∧ LexesC r ts := by
   simp only [List.cons_append, List.append_assoc, List.nil_append] at h
   obtain ⟨r1, hn, h1⟩ := lex_name h
   obtain ⟨r2, hx2, h2⟩ := lex_expect h1
@@ -365,21 +387,21 @@ theorem pInst_ok (f : Nat) (ty nm : String) (pins : List VPin) (s : List Char) (
   exact ⟨r4, by simp only [pInst, hn, hx2, hp, hx4], h4⟩
 
 theorem pStmt_ok (f : Nat) (st : VStmt) (s : List Char) (ts : List CT) (hv : validStmt st = true)
-    (hf : (stmtT st).length ≤ f) (h : Lexes s (stmtT st ++ ts)) : ∃ r, pStmt f s = some (some st, r) ∧ Lexes r ts := by
+    (hf : (stmtT st).length ≤ f) (h : LexesC s (stmtT st ++ ts)) : ∃ r, pStmt f s = some (some st, r) ∧ LexesC r ts := by
   cases st with
   | decl k rg ns =>
     cases ns with
     | nil => simp [validStmt] at hv
     | cons n ns =>
       simp only [stmtT, List.cons_append, List.append_assoc] at h hf
-      obtain ⟨r1, hn1, h1⟩ := Lexes.cons_inv h
+      obtain ⟨r1, hn1, h1⟩ := lex_fixed h (fun a ha => sameTok_kw (by cases k <;> rfl) ha)
       obtain ⟨r2, hr, h2⟩ := pRangeOpt_ok rg r1 (namesT ';' (n :: ns) ++ ts) h1 (by simp only [namesT, List.cons_append]; exact headOK_name n _)
       obtain ⟨r3, hns, h3⟩ := pNames_ok ';' (by decide) n ns f r2 ts h2 (by simp only [List.length_cons, List.length_append] at hf; omega)
       exact ⟨r3, by simp only [pStmt, hn1, kwOf_kind, pDecl, hr, hns], h3⟩
   | assign t x =>
     simp only [validStmt, Bool.and_eq_true] at hv
     simp only [stmtT, List.cons_append, List.append_assoc, List.nil_append] at h hf
-    obtain ⟨r1, hn1, h1⟩ := Lexes.cons_inv h
+    obtain ⟨r1, hn1, h1⟩ := lex_fixed h (fun a ha => sameTok_kw (by rfl) ha)
     obtain ⟨r2, hs2, h2⟩ := pSel_ok f t r1 _ hv.1 (by simp only [List.length_cons, List.length_append] at hf; omega)
       (headOK_gs '=' _ (by decide)) h1
     obtain ⟨r3, hx3, h3⟩ := lex_expect h2
@@ -390,17 +412,17 @@ theorem pStmt_ok (f : Nat) (st : VStmt) (s : List Char) (ts : List CT) (hv : val
   | inst ty nm pins =>
     simp only [validStmt, Bool.and_eq_true] at hv
     simp only [stmtT, List.cons_append] at h hf
-    obtain ⟨r1, hn1, h1⟩ := Lexes.cons_inv h
+    obtain ⟨a, r1, hn1, hs1, h1⟩ := LexesC.cons_inv h
     obtain ⟨r2, hi, h2⟩ := pInst_ok f ty nm pins r1 ts hv.2
       (by simp only [List.length_cons, List.length_append] at hf; omega) (by simpa only [List.cons_append] using h1)
-    unfold nameTok at hn1
-    split at hn1
-    · next hpl =>
-      exact ⟨r2, by simp only [pStmt, hn1, kwOf_plain _ hpl, String.ofList_toList, hi], h2⟩
-    · exact ⟨r2, by simp only [pStmt, hn1, String.ofList_toList, hi], h2⟩
+    rcases sameTok_nameTok_lead hs1 with ha | ⟨ha, hk⟩
+    · subst ha
+      exact ⟨r2, by simp only [pStmt, hn1, String.ofList_toList, hi], h2⟩
+    · subst ha
+      exact ⟨r2, by simp only [pStmt, hn1, hk, String.ofList_toList, hi], h2⟩
 
 theorem pStmts_ok (sts : List VStmt) : ∀ (f : Nat) (s : List Char) (ts : List CT), sts.all validStmt = true →
-    (stmtsT sts).length ≤ f → Lexes s (stmtsT sts ++ ts) → ∃ r, pStmts f s = some (sts, r) ∧ Lexes r ts := by
+    (stmtsT sts).length ≤ f → LexesC s (stmtsT sts ++ ts) → ∃ r, pStmts f s = some (sts, r) ∧ LexesC r ts := by
   induction sts with
   | nil =>
     intro f s ts _ hf h
@@ -408,7 +430,7 @@ theorem pStmts_ok (sts : List VStmt) : ∀ (f : Nat) (s : List Char) (ts : List 
     cases f with
     | zero => simp [stmtsT] at hf
     | succ f =>
-      obtain ⟨r1, hn1, h1⟩ := Lexes.cons_inv h
+      obtain ⟨r1, hn1, h1⟩ := lex_fixed h (fun a ha => sameTok_kw (by rfl) ha)
       exact ⟨r1, by simp only [pStmts, pStmt, hn1, kwOf_endmodule], h1⟩
   | cons st sts ih =>
     intro f s ts hv hf h
@@ -426,7 +448,7 @@ theorem pStmts_ok (sts : List VStmt) : ∀ (f : Nat) (s : List Char) (ts : List 
 /-! ## modules -/
 
 theorem pPorts_ok (f : Nat) (ports : List String) (s : List Char) (ts : List CT) (hf : (namesT ')' ports).length ≤ f)
-    (h : Lexes s (namesT ')' ports ++ ts)) : ∃ r, pPorts f s = some (ports, r) ∧ Lexes r ts := by
+    (h : LexesC s (namesT ')' ports ++ ts)) : ∃ r, pPorts f s = some (ports, r) ∧ LexesC r ts := by
   cases ports with
   | nil =>
     simp only [namesT, List.cons_append, List.nil_append] at h
@@ -441,12 +463,12 @@ theorem pPorts_ok (f : Nat) (ports : List String) (s : List Char) (ts : List CT)
     exact ⟨r, by simp only [pPorts, hp, Bool.false_eq_true, if_false, hns], hr⟩
 
 theorem pModule_ok (f : Nat) (m : VModule) (s : List Char) (ts : List CT) (hv : validModule m = true)
-    (hf : (moduleT m).length ≤ f + 1) (h : Lexes s (moduleT m ++ ts)) :
-    ∃ r1 r, next .top s = some (.modkw, r1) ∧ pModule f r1 = some (m, r) ∧ Lexes r ts := by
+    (hf : (moduleT m).length ≤ f + 1) (h : LexesC s (moduleT m ++ ts)) :
+    ∃ r1 r, next .top s = some (.modkw, r1) ∧ pModule f r1 = some (m, r) ∧ LexesC r ts := by
   obtain ⟨nm, ports, sts⟩ := m
   simp only [validModule, Bool.and_eq_true] at hv
   simp only [moduleT, List.cons_append, List.append_assoc] at h hf
-  obtain ⟨r1, hn1, h1⟩ := Lexes.cons_inv h
+  obtain ⟨r1, hn1, h1⟩ := lex_fixed h (fun a ha => sameTok_modkw ha)
   obtain ⟨r2, hn2, h2⟩ := lex_name h1
   obtain ⟨r3, hx3, h3⟩ := lex_expect h2
   have hposS := stmtsT_length_pos sts
@@ -459,13 +481,13 @@ theorem moduleT_length_pos (m : VModule) : 0 < (moduleT m).length := by simp [mo
 
 /-- a text that lexes to the token stream of `ms` parses to `ms` -/
 theorem pModules_ok (ms : List VModule) : ∀ (f : Nat) (s : List Char), ms.all validModule = true →
-    (modulesT ms).length < f → Lexes s (modulesT ms) → pModules f s = some ms := by
+    (modulesT ms).length < f → LexesC s (modulesT ms) → pModules f s = some ms := by
   induction ms with
   | nil =>
     intro f s _ hf h
     cases f with
     | zero => omega
-    | succ f => simp only [pModules, Lexes.nil_inv h]
+    | succ f => simp only [pModules, LexesC.nil_inv h]
   | cons m ms ih =>
     intro f s hv hf h
     simp only [List.all_cons, Bool.and_eq_true] at hv
@@ -478,8 +500,12 @@ theorem pModules_ok (ms : List VModule) : ∀ (f : Nat) (s : List Char), ms.all 
       have := ih f r hv.2 (by simp only [List.length_append] at hf; omega) hr
       simp only [pModules, hn, hm, this]
 
-theorem parseChars_of_lexes (ms : List VModule) (s : List Char) (hv : ms.all validModule = true)
-    (h : Lexes s (modulesT ms)) : parseChars s = some ms :=
+/-- up to spelling (`sameTok`) -/
+theorem parseChars_of_lexesC (ms : List VModule) (s : List Char) (hv : ms.all validModule = true)
+    (h : LexesC s (modulesT ms)) : parseChars s = some ms :=
   pModules_ok ms _ s hv (by have := h.length_le; omega) h
+
+theorem parseChars_of_lexes (ms : List VModule) (s : List Char) (hv : ms.all validModule = true)
+    (h : Lexes s (modulesT ms)) : parseChars s = some ms := parseChars_of_lexesC ms s hv h.toC
 
 end KV.VerilogText
